@@ -29,7 +29,7 @@ CASE_TIMEOUT = {"quick": 900, "thorough": 3000}
 PARAMS = {
     "quick": {
         "flory_schulz": [(0.3,), (0.1,), (0.05,)],
-        "schulz_zimm": [(150.0, 120.0), (600.0, 450.0), (90.0, 60.0), (1500.0, 1000.0)],
+        "schulz_zimm": [(150.0, 120.0), (600.0, 450.0), (90.0, 60.0), (1500.0, 1000.0), (200.0, 100.0)],
         "gauss": [(100.0, 20.0), (1500.0, 50.0)],
         "uniform": [(12, 72), (500, 600)],
         "log_normal": [(50.0, 1.1), (300.0, 1.5)],
@@ -37,7 +37,7 @@ PARAMS = {
     },
     "thorough": {
         "flory_schulz": [(0.5,), (0.3,), (0.1,), (0.05,), (0.02,), (0.011,)],
-        "schulz_zimm": [(150.0, 120.0), (600.0, 450.0), (1500.0, 1000.0), (5000.0, 4500.0), (90.0, 60.0)],
+        "schulz_zimm": [(150.0, 120.0), (600.0, 450.0), (1500.0, 1000.0), (5000.0, 4500.0), (90.0, 60.0), (200.0, 100.0), (2000.0, 1000.0)],
         "gauss": [(100.0, 20.0), (1500.0, 50.0), (5000.0, 150.0), (20.0, 60.0), (40.0, 0.5)],
         "uniform": [(12, 72), (500, 600), (0, 10), (1000, 1001)],
         "log_normal": [(50.0, 1.1), (300.0, 1.5), (5000.0, 1.05), (20.0, 3.0)],
@@ -128,11 +128,43 @@ class Ref:
         return float(self.d.ppf(1 - 1e-12))
 
 
+class DiscretisedSZ:
+    """the Schulz-Zimm law exactly as documented in the library: the continuous density evaluated on integer masses and
+    used as a probability mass function (not normalised).  Used only to DIAGNOSE: a deviation from the continuous law that
+    matches this object is the known discretisation finding, anything else is a new violation."""
+
+    def __init__(self, ref):
+        self.ref = ref
+        self.cum = [ref.point(0)]
+
+    def cdf(self, x):
+        import math as _m
+
+        k = _m.floor(x)
+        if k < 0:
+            return 0.0
+        while len(self.cum) <= k:
+            self.cum.append(self.cum[-1] + self.ref.point(len(self.cum)))
+        return min(1.0, self.cum[k])  # scipy clips cumulative values of a discrete law at 1
+
+    def ppf(self, u, limit=200000):
+        k = 0
+        while self.cdf(k) < u:
+            k += 1
+            if k > limit:
+                return None
+        return float(k)
+
+
 def enumerate_cases(tier, seed):
     for fam in NAMES:
         for par in PARAMS[tier][fam]:
             for clause in ("support", "intervals", "draws", "text"):
                 yield ("law", {"fam": fam, "par": list(par), "clause": clause, "tier": tier})
+        # several live objects of one family: constructing / using another object must not change an existing one
+        ps = PARAMS[tier][fam]
+        for i in range(len(ps)):
+            yield ("law", {"fam": fam, "par": list(ps[i]), "clause": "coexistence", "tier": tier, "other": list(ps[(i + 1) % len(ps)])})
     yield ("names", {})
 
 
@@ -195,6 +227,7 @@ def eval_case(kind, data):
         viol(res, f"C11|constructor-raises|{fam}", f"get_distribution({text!r}) raises {dist}", {"text": text})
         return res
     upper = ref.upper()
+    dsz = DiscretisedSZ(ref) if fam == "schulz_zimm" else None
 
     def cmp(key, what, got, exp, tol):
         res["transitions"] += 1
@@ -275,6 +308,8 @@ def eval_case(kind, data):
                 exp = ref.cdf(b) - ref.cdf(a)
                 tol = 1e-6 + (ref.point(a) + ref.point(b) + 1e-3 * 0 if fam == "schulz_zimm" else 0)
                 lower0 = "lower-end-0" if a == 0 else "inner"
+                if fam == "schulz_zimm" and abs(got - exp) > tol and abs(got - (dsz.cdf(b) - dsz.cdf(a))) < 1e-9:
+                    lower0 = "discretised-density"
                 if nbad < 4 and not cmp(f"C11|interval-probability|{fam}|{lower0}", f"prob_mw(interval({a}, {b}])", got, exp, tol):
                     nbad += 1
             if nbad >= 4:
@@ -300,7 +335,8 @@ def eval_case(kind, data):
             res["transitions"] += 1
             res["traces"] += 1
             if st != "ok":
-                key = f"C11|draw-{'raises' if st == 'exc' else st}|{fam}|{(t or '').split('(')[0]}"
+                # running out of time or out of memory are the same observation: the draw does not terminate
+                key = f"C11|draw-{'raises' if st == 'exc' else 'does-not-terminate'}|{fam}|{(t or '').split('(')[0]}"
                 fails.setdefault(key, []).append(u)
                 continue
             # what did the law ask the generator for?
@@ -331,9 +367,40 @@ def eval_case(kind, data):
             else:
                 ok = abs(ref.cdf(t) - u) <= 1e-6 or abs(t - ref.ppf(u)) <= 1e-6 * max(1.0, abs(t))
             if not ok:
-                viol(res, f"C11|draw-does-not-invert-cdf|{fam}{'|tail' if u >= 0.99 else ''}", f"{text}: draw at quantile {u} = {t}; the documented law has F({t}) = {ref.cdf(t)} and inverse {ref.ppf(u)}", {"text": text})
+                cls = ""
+                if fam == "schulz_zimm" and dsz.ppf(u) == t:
+                    cls = "|discretised-density"
+                viol(res, f"C11|draw-does-not-invert-cdf|{fam}{cls}", f"{text}: draw at quantile {u} = {t}; the documented law has F({t}) = {ref.cdf(t)} and inverse {ref.ppf(u)}", {"text": text})
         for key, lst in fails.items():
             viol(res, key, f"{text}: draw_mw fails at {len(lst)} of {len(us)} grid quantiles, e.g. u = {lst[:6]}", {"text": text, "quantiles": lst[:50]})
+    elif clause == "coexistence":
+        other = tuple(data["other"])
+
+        def snapshot(dd):
+            pts = [ref.ppf(q) for q in (0.1, 0.5, 0.9)]
+            out = [str(dd)]
+            for x in pts:
+                out.append(round(float(dd.prob_mw(x)), 15))
+            out.append(round(float(dd.prob_mw(interval(pts[0], pts[2]))), 15))
+            for u in (0.3, 0.7):
+                st_, t_ = run_limited(lambda: float(dd.draw_mw(ScriptedGenerator([], menu=(u,)))), (), 20)
+                out.append((st_, round(t_, 9) if st_ == "ok" else None))
+            return out
+
+        before = snapshot(dist)
+        st, d2 = run_limited(lambda: get_distribution(dist_text(fam, other)), (), 10)
+        res["states"] += 2
+        res["transitions"] += 2
+        res["traces"] += 2
+        if st == "ok":
+            d2.prob_mw(Ref(fam, other).ppf(0.5))
+            run_limited(lambda: float(d2.draw_mw(ScriptedGenerator([], menu=(0.5,)))), (), 20)
+            after = snapshot(dist)
+            if after != before:
+                viol(res, f"C11|changed-by-another-object|{fam}", f"{text}: after constructing and using {dist_text(fam, other)} the first object answers {after} instead of {before}", {"text": text, "other": dist_text(fam, other)})
+            d3 = get_distribution(text)
+            if snapshot(d3) != before:
+                viol(res, f"C11|depends-on-earlier-objects|{fam}", f"{text}: a second object with the same text answers differently after {dist_text(fam, other)} was used", {"text": text})
     elif clause == "text":
         # str reproduces the parameters and re-parses to the same law
         s = str(dist)
